@@ -1237,6 +1237,10 @@ func (e *c34Env) analyse(fam, format string, s *PkgSpec, data []byte, res *c34Re
 					sigName, sigBody = "some "+wire.H(d.Members[3].Name), wire.H(string(d.Members[3].Body))
 				}
 				res.Checks = append(res.Checks, "pkgdeb")
+				if res.TarBy == nil {
+					res.TarBy = map[string]int{}
+				}
+				res.TarBy["deb:file-assembly:compared"]++
 				ask(fmt.Sprintf("pkgdeb %d %s %s %s %s %s", d.Members[0].MTime, wire.H(d.Members[2].Name), wire.H(string(d.Members[1].Body)), wire.H(string(d.Members[2].Body)), sigName, sigBody), func(ans string) {
 					got, _ := wire.UnH(ans)
 					if got != string(data) {
@@ -1321,6 +1325,10 @@ func (e *c34Env) analyse(fam, format string, s *PkgSpec, data []byte, res *c34Re
 		// with the package's own compressed inner archives as what the compressor returns
 		if len(p.OuterTar) > 0 && len(p.OuterTar) <= e.segCap/4 && len(p.Outer) == 3 && p.Outer[0].MTime >= 0 {
 			res.Checks = append(res.Checks, "pkgipkouter")
+			if res.TarBy == nil {
+				res.TarBy = map[string]int{}
+			}
+			res.TarBy["ipk:outer-assembly:compared"]++
 			outer := p.OuterTar
 			ask(fmt.Sprintf("pkgipkouter %d %s %s", p.Outer[0].MTime, wire.H(string(p.ControlRaw)), wire.H(string(p.DataRaw))), func(ans string) {
 				got, _ := wire.UnH(ans)
